@@ -319,6 +319,8 @@ class GRule:
         self.sigkey = sigkey or list(sup)
         self.eligible = eligible or [True] * self.M
         self._app = [self._mk_app(m) for m in range(self.M)]
+        self._beats = {}
+        self._wins = {}
 
     def _mk_app(self, m):
         if not self.eligible[m]:
@@ -332,24 +334,39 @@ class GRule:
         return z3.And([self.lef(x, y) for x, y in zip(self.sup[a], self.sup[b])] + [z3.BoolVal(True)])
 
     def beats(self, a, b):
-        P = self.P
-        if self.sigkey[a] == self.sigkey[b]:
-            return z3.Or(P[a] > P[b], z3.And(P[a] == P[b], z3.BoolVal(a > b)))
-        if self.sup[a] == self.sup[b]:
-            return P[a] > P[b]
-        return z3.Or(P[a] > P[b], z3.And(P[a] == P[b], self.moresp(a, b)))
+        r = self._beats.get((a, b))
+        if r is None:
+            P = self.P
+            if self.sigkey[a] == self.sigkey[b]:
+                r = z3.Or(P[a] > P[b], z3.And(P[a] == P[b], z3.BoolVal(a > b)))
+            elif self.sup[a] == self.sup[b]:
+                r = P[a] > P[b]
+            else:
+                r = z3.Or(P[a] > P[b], z3.And(P[a] == P[b], self.moresp(a, b)))
+            self._beats[(a, b)] = r
+        return r
 
     def wins(self, a, among=None):
-        among = range(self.M) if among is None else among
-        return z3.And([self._app[a]] + [z3.Implies(self._app[b], self.beats(a, b)) for b in among if b != a])
+        among = tuple(range(self.M) if among is None else among)
+        r = self._wins.get((a, among))
+        if r is None:
+            r = z3.And([self._app[a]] + [z3.Implies(self._app[b], self.beats(a, b)) for b in among if b != a])
+            self._wins[(a, among)] = r
+        return r
 
     def any_app(self, among=None):
-        among = range(self.M) if among is None else among
-        return z3.Or([self._app[m] for m in among] + [z3.BoolVal(False)])
+        among = tuple(range(self.M) if among is None else among)
+        r = self._wins.get(("anyapp", among))
+        if r is None:
+            r = self._wins[("anyapp", among)] = z3.Or([self._app[m] for m in among] + [z3.BoolVal(False)])
+        return r
 
     def any_win(self, among=None):
-        among = list(range(self.M) if among is None else among)
-        return z3.Or([self.wins(m, among) for m in among] + [z3.BoolVal(False)])
+        among = tuple(range(self.M) if among is None else among)
+        r = self._wins.get(("anywin", among))
+        if r is None:
+            r = self._wins[("anywin", among)] = z3.Or([self.wins(m, among) for m in among] + [z3.BoolVal(False)])
+        return r
 
     def dontcare(self, among=None):
         """two applicable top-priority methods with identical supplied annotations but different signatures"""
